@@ -5,6 +5,7 @@ package interp
 // rendering of composite values under %v is approximate (flows into messages only).
 
 import (
+	"symgo/term"
 	"fmt"
 	"go/types"
 	"strings"
@@ -211,7 +212,14 @@ func renderValue(fr *frame, verb byte, plus bool, t types.Type, v value, depth i
 				}
 			}
 		}
-		return lit("0xc000000000")
+		// a pointer printed as such: its address differs from run to run and from node to node.
+		// Rendered as "0xc" + 8 unconstrained symbolic bytes whose names mark them as address bytes
+		// (zz.NoAddress finds them)
+		out := lit("0xc")
+		for k := 0; k < 8; k++ {
+			out = append(out, seg{kind: sByte, t: fr.i.ps.fresh("addr", term.BV(8))})
+		}
+		return out
 	case *omap:
 		out := lit("map[")
 		if x != nil {
